@@ -1174,6 +1174,13 @@ func runC10(w *W) {
 		generic.DefaultNodeSliceCap = pickInt(t, "knob.nodeslicecap", 16, 1, 4, 64)
 		w.Sig(fmt.Sprintf("slicecap:%d", generic.DefaultNodeSliceCap))
 	}
+	if t.Chance(1, 2, "knob.pbbuf") {
+		knobs.PBBufCap = pickInt(t, "knob.pbbufcap", 0, 1, 16, 64, 127, 128, 129, 200, 256, 1000)
+		if t.Chance(1, 3, "knob.pbbufcap.any") {
+			knobs.PBBufCap = t.Intn(600, "knob.pbbufcap.n")
+		}
+		w.Sig(fmt.Sprintf("pbbuf:%d", knobs.PBBufCap/32))
+	}
 	if t.Chance(1, 3, "knob.gc") {
 		w.World.GCNum, w.World.GCDen, w.World.GCBudget = 1, pickInt(t, "knob.gcden", 4, 16, 64), 3
 		w.Sig("gc")
